@@ -2,7 +2,8 @@
 from __future__ import annotations
 
 from .. import terms as T
-from ..facts import (C, G, V, arg, bind_call, calls, events, receiver, returns, spec, yields)
+from ..facts import (C, G, V, arg, bind_call, calls, events, receiver, returns, spec, spec_env,
+                     yields)
 from ..symeval import mk_elem
 
 
@@ -87,7 +88,7 @@ def write_pixels_append(ctx, prop):
             okg = T.contains(grp, V('grouppath')) or any(T.contains(grp, V(p)) for p in fa.params[:2])
             ctx.check(okg, R, inst + '.target-group', w, found=grp, expected='the group named by the grouppath argument')
         # no conditional skip other than an emptiness filter
-        bad_g = [(c, p) for c, p in e.guards if not _is_emptiness_filter(norm_chunk(c), nn)
+        bad_g = [(c, p) for c, p in e.cguards if not _is_emptiness_filter(norm_chunk(c), nn)
                  and not (c[0] == 'cmp' and c[1] in ('is', 'isnot') and T.contains(c, V('lock')))]
         ctx.check(not bad_g, R, inst + '.unconditional', w, found=[(T.show(c), p) for c, p in bad_g],
                   expected='store not guarded (except by an emptiness filter)',
@@ -221,3 +222,373 @@ def table_get_slices(ctx):
         ok = a0[0] == 'sub' and a0[2] in (T.sub(T.lst([V('fields')]), C(0)), V('fields')) or \
             (a0[0] == 'sub' and T.show(a0[2]).startswith('fields') or 'fields' in T.show(a0[2]))
         ctx.check(ok, R, 'series-field', ctx.where(fa, ser[-1]), found=a0, expected='data[fields[0]]')
+
+
+# ---------------------------------------------------------------------------
+# class attribute resolver
+
+def class_attr(ctx, cls_qual, name, method='__init__'):
+    """Last value stored to self.<name> in cls.__init__ (term over its params)."""
+    fa = ctx.fa(cls_qual + '.' + method)
+    st = [e for e in events(fa, 'store_attr') if e.base == V('self') and e.attr == name]
+    return (st[-1].value, fa, st[-1]) if st else (None, fa, None)
+
+
+def norm_frame(t):
+    """pd.DataFrame(X) -> X (so that 'chunk as frame' and 'chunk' compare equal)."""
+    def f(x):
+        if x[0] == 'call' and x[1] == G('pd.DataFrame') and len(x[2]) == 1 and not x[3]:
+            return x[2][0]
+        return None
+    return T.transform(t, f)
+
+
+# ---------------------------------------------------------------------------
+# C02 #3: run-length offsets template
+
+def index_template(ctx, qual, col, tot):
+    R = 'IDX.rle-offsets'
+    fa = ctx.fa(qual)
+    short = qual.split('.')[-2] + '.' + qual.split('.')[-1] if qual.endswith('__init__') else qual.split('.')[-1]
+    RL = G('cooler.util.rlencode')
+    loops = [l for l in fa.loops.values() if l.kind == 'for' and l.iter is not None
+             and any(x[0] == 'call' and x[1] == RL for x in T.walk(l.iter))]
+    if not loops:
+        # alternative accepted skeleton: searchsorted(col, arange(n + 1))
+        alt = [e for e in events(fa, ('return', 'store_attr')) if any(
+            x[0] == 'ss' and x[2][0] == 'call' and x[2][1] == G('np.arange') for x in T.walk(e.d.get('value', T.NONE)))]
+        if alt:
+            ctx.ok(R, short + '.skeleton', ctx.where(fa), found='searchsorted(col, arange(n+1))', expected='accepted alternative')
+            ctx.assume(f'{short}: searchsorted-based index builder accepted without parameter check')
+            return
+        ctx.unrec(R, short + '.skeleton', ctx.where(fa),
+                  reason='neither the run-length walk nor searchsorted(col, arange(n+1)) found')
+        return
+    L = loops[0]
+    rl = [x for x in T.walk(L.iter) if x[0] == 'call' and x[1] == RL][0]
+    w = ctx.where(fa)
+    ok_it = L.iter == T.call(G('zip'), (('star', rl),))
+    ctx.check(ok_it, R, short + '.runs', w, found=L.iter, expected='zip(*rlencode(<column>))',
+              reason='the walk must see (start, length, value) of every run')
+    start = mk_elem(L.iter, L.id, (0,))
+    value = mk_elem(L.iter, L.id, (2,))
+    ins = [e for e in events(fa, 'store_sub') if e.loops == (L.id,) and e.key[0] == 'slice']
+    if len(ins) != 1:
+        ctx.bad(R, short + '.fill', w, found=f'{len(ins)} sliced stores in the run loop', expected='exactly one',
+                key=f'{R}|{short}|fill-count')
+        return
+    e = ins[0]
+    lo, hi = e.key[1], e.key[2]
+    curr = lo[2] if lo[0] == 'phi' and lo[1] == L.id else None
+    ctx.check(curr is not None, R, short + '.fill.lower', ctx.where(fa, e), found=lo,
+              expected='the carried cursor (first id not yet filled)')
+    ctx.eq(R, short + '.fill.upper', hi, T.add(value, C(1)), ctx.where(fa, e),
+           'ids up to and including the run value get the run start (ids of empty rows in between point at the next run)')
+    ctx.eq(R, short + '.fill.value', e.value, start, ctx.where(fa, e), 'offset of id = start of its run')
+    if curr:
+        init, step = L.carried.get(curr, (None, None))
+        ctx.eq(R, short + '.cursor.init', init, C(0), ctx.where(fa, e))
+        ctx.eq(R, short + '.cursor.step', step, T.add(value, C(1)), ctx.where(fa, e),
+               'cursor moves past the run value')
+    ctx.check(not e.cguards and not L.has_break and not L.has_continue, R, short + '.no-skip', ctx.where(fa, e),
+              found=[(T.show(c), p) for c, p in e.cguards], expected='every run handled')
+    base = e.base
+    # tail fill after the loop
+    tails = [t for t in events(fa, 'store_sub') if not t.loops and t.idx > e.idx and t.key[0] == 'slice'
+             and t.key[2] == T.NONE]
+    if not tails:
+        ctx.bad(R, short + '.tail', w, found='no tail fill after the run loop',
+                expected='offset[cursor:] = total', reason='ids after the last run (and the closing entry) must hold the table length',
+                key=f'{R}|{short}|tail-missing')
+        return
+    t = tails[-1]
+    okt = t.key[1][0] == 'after' and t.key[1][1] == L.id and t.key[1][2] == curr
+    ctx.check(okt, R, short + '.tail.lower', ctx.where(fa, t), found=t.key[1], expected='the cursor after the loop')
+    same_base = (t.base == base) or (T.show(t.base) == T.show(base)) or \
+        (t.base[0] == 'call' and base[0] == 'attr') or (base[0] == 'call' and t.base[0] == 'attr')
+    ctx.check(same_base, R, short + '.tail.array', ctx.where(fa, t), found=t.base, expected=base)
+    # array length n + 1 and totals
+    zs = [z for z in calls(fa, 'np.zeros')]
+    n_term = None
+    if zs:
+        a0 = arg(zs[0], 0)
+        n_term = T.sub_(a0, C(1))
+        ctx.check(a0[0] == 'lin' and a0[1] == 1 and len(a0[2]) == 1 and a0[2][0][2] == 1, R, short + '.length',
+                  ctx.where(fa, zs[0]), found=a0, expected='<number of ids> + 1',
+                  reason='one offset per id plus the closing offset')
+    else:
+        ctx.unrec(R, short + '.length', w, reason='offset array not created with np.zeros')
+    colterm = arg_of_call(rl, 0)
+    if col is not None:
+        ctx.eq(R, short + '.column', colterm, T.sub(V('grp'), C(col)), ctx.where(fa),
+               f'index is the run-length index of the {col} column')
+        ctx.eq(R, short + '.tail.value', t.value, V(tot), ctx.where(fa, t), 'closing value = table length')
+        par = {'nnz': 'n_bins', 'n_bins': 'n_chroms'}[tot]
+        ctx.eq(R, short + '.ids', n_term, V(par), ctx.where(fa), f'one entry per {par[2:]} id')
+        rets = returns(fa)
+        ctx.check(bool(rets) and rets[-1].value == base, R, short + '.returned', ctx.where(fa, rets[-1] if rets else None),
+                  found=rets[-1].value if rets else None, expected=base)
+    else:
+        # loaders: column = chrom codes of the checked bin table, total = its length
+        bt = None
+        for x in T.walk(colterm):
+            if x[0] == 'call' and x[1] == G('cooler.util.check_bins'):
+                bt = x
+        ctx.check(bt is not None and t.value == T.call(G('len'), (bt,)), R, short + '.tail.value', ctx.where(fa, t),
+                  found=t.value, expected='len(<the bin table whose chrom column is indexed>)')
+
+
+def arg_of_call(c, pos):
+    return c[2][pos] if c[0] == 'call' and len(c[2]) > pos else None
+
+
+# ---------------------------------------------------------------------------
+# C02 #4: chunked run-length encoder
+
+def rlencode_template(ctx):
+    R = 'RLE.block-carry'
+    fa = ctx.fa('cooler.util.rlencode')
+    loops = [l for l in fa.loops.values() if l.kind == 'for']
+    if len(loops) != 1:
+        ctx.unrec(R, 'skeleton', ctx.where(fa), found=len(loops), reason='expected one block loop')
+        return
+    L = loops[0]
+    env = spec_env(ctx.repo, '''
+        arr = asarray_or_dataset(array)
+        n = len(arr)
+        cs = n if chunksize is None else chunksize
+        it = range(0, n, cs)
+    ''', {'array': V('array'), 'chunksize': V('chunksize')})
+    w = ctx.where(fa)
+    ctx.eq(R, 'blocks', L.iter, env['it'], w, 'blocks start at 0, n step chunksize (whole array when None)')
+    i = mk_elem(L.iter, L.id, ())
+    # the carried "last value"
+    carried = {k: v for k, v in L.carried.items() if v[0] != ('unk', 'undef', 0)}
+    env2 = spec_env(ctx.repo, '''
+        x = arr[i : i + cs]
+        base = np.flatnonzero(x[1:] != x[:-1]) + 1
+        last = x[-1]
+        first = x[0]
+    ''', dict(env, i=i))
+    lastname = [k for k, (init, step) in carried.items() if step == env2['last']]
+    if not lastname:
+        ctx.bad(R, 'carry', w, found={k: T.show(v[1]) for k, v in carried.items()}, expected='last_val = x[-1] after each block',
+                reason='a run continuing across a block boundary would be split into two runs',
+                key=f'{R}|carry-missing')
+        return
+    ln = lastname[0]
+    ctx.eq(R, 'carry.init', carried[ln][0], G('np.nan'), w, 'nothing precedes the first block')
+    cond = T.cmp('!=', env2['first'], ('phi', L.id, ln))
+    locs = T.ite(cond, ('cat', (C(0), env2['base'])), env2['base'])
+    want_starts = T.add(i, locs)
+    want_vals = T.sub(env2['x'], locs)
+    apps = [e for e in calls(fa, method='append') if e.loops == (L.id,)]
+    got = {T.show(receiver(e)): arg(e, 0) for e in apps}
+    s_list = [receiver(e) for e in apps if arg(e, 0) == want_starts]
+    v_list = [receiver(e) for e in apps if arg(e, 0) == want_vals]
+    ctx.check(len(s_list) == 1, R, 'starts', w, found=[T.show(v) for v in got.values()][:1], expected=want_starts,
+              reason='a run starts at local 0 iff the block\'s first value differs from the carried last value; '
+                     'starts are block offset + local position')
+    ctx.check(len(v_list) == 1, R, 'values', w, found=[T.show(v) for v in got.values()][1:2], expected=want_vals,
+              reason='run values are read at the run starts of the block')
+    rets = [r for r in returns(fa) if not any(T.contains(c, C(0)) and p for c, p in r.guards[-1:])
+            or r.idx == returns(fa)[-1].idx]
+    r = returns(fa)[-1]
+    if s_list and v_list:
+        S = T.call(G('np.concatenate'), (s_list[0],))
+        Vv = T.call(G('np.concatenate'), (v_list[0],))
+        want_ret = T.tup([S, T.call(G('np.diff'), (('cat', (S, env['n'])),)), Vv])
+        ctx.eq(R, 'returned', r.value, want_ret, ctx.where(fa, r),
+               '(starts, diff(starts + [n]), values)')
+    ctx.check(not L.has_break and not L.has_continue, R, 'no-skip', w, found='break/continue' if L.has_break or L.has_continue else 'none',
+              expected='every block visited')
+
+
+# ---------------------------------------------------------------------------
+# C02 #5 / C13 #4: validator predicates
+
+def validator_predicates(ctx):
+    R = 'VAL.predicates'
+    fa = ctx.fa('cooler.create._ingest._validate_pixels')
+    ch = V('chunk')
+    b1, b2 = T.sub(ch, C('bin1_id')), T.sub(ch, C('bin2_id'))
+    nb = V('n_bins')
+    want = {
+        'negative': ('boundscheck', T.nary('bor', (T.cmp('<', b1, C(0)), T.cmp('<', b2, C(0)))),
+                     'ids below 0 rejected on both axes'),
+        'excess': ('boundscheck', T.nary('bor', (T.cmp('>=', b1, nb), T.cmp('>=', b2, nb))),
+                   'ids >= n_bins rejected on both axes (the id indexes an n_bins+1 offset array)'),
+        'lower-triangle': ('triucheck', T.cmp('>', b1, b2), 'bin1 > bin2 rejected (strict: the diagonal is legal)'),
+    }
+    rs = [e for e in events(fa, 'raise')]
+    for name, (flag, pred, why) in want.items():
+        hit = None
+        seen = []
+        for e in rs:
+            gs = [(norm_frame(c), p) for c, p in e.guards]
+            if (V(flag), True) not in gs:
+                continue
+            for c, p in gs:
+                if not p:
+                    continue
+                m = None
+                if c[0] == 'call' and c[1] == G('np.any') and len(c[2]) == 1:
+                    m = c[2][0]
+                elif c[0] == 'call' and c[1][0] == 'attr' and c[1][2] == 'any':
+                    m = c[1][1]
+                if m is not None:
+                    seen.append(m)
+                    if m == pred:
+                        hit = e
+        ctx.check(hit is not None, R, name, ctx.where(fa, hit), found=[T.show(m) for m in seen], expected=pred,
+                  reason=why)
+    # duplicates keyed on both id columns
+    hit = None
+    seen = []
+    for e in rs:
+        gs = [(norm_frame(c), p) for c, p in e.guards]
+        if (V('dupcheck'), True) not in gs:
+            continue
+        for c, p in gs:
+            if p and c[0] == 'call' and c[1][0] == 'attr' and c[1][2] == 'any':
+                m = c[1][1]
+                seen.append(m)
+                want_d = T.call(T.attr(ch, 'duplicated'), (T.lst([C('bin1_id'), C('bin2_id')]),))
+                if m == want_d:
+                    hit = e
+    ctx.check(hit is not None, R, 'duplicate', ctx.where(fa, hit), found=[T.show(m) for m in seen],
+              expected="chunk.duplicated(['bin1_id', 'bin2_id']).any()", reason='a pixel repeated within a chunk is rejected; the key is the id pair')
+    for e in rs:
+        from ..facts import exc_name
+        ctx.check(exc_name(e) == 'BadInputError', R, f'exception@{[T.show(c) for c, p in e.guards][:1]}', ctx.where(fa, e),
+                  found=exc_name(e), expected='BadInputError')
+    # ensure_sorted sorts by the id pair; the validated chunk is what is returned
+    rets = returns(fa)
+    v = norm_frame(rets[-1].value) if rets else T.NONE
+    want_r = T.ite(V('ensure_sorted'),
+                   T.call(T.attr(ch, 'sort_values'), (T.lst([C('bin1_id'), C('bin2_id')]),)), ch)
+    ctx.eq(R, 'returned', v, want_r, ctx.where(fa, rets[-1] if rets else None),
+           'the chunk passed on is the validated chunk (sorted by the id pair when requested)')
+    # validate_pixels binds the flags by name
+    fv = ctx.fa('cooler.create._ingest.validate_pixels')
+    rv = returns(fv)
+    okp = False
+    if rv and rv[-1].value[0] == 'call' and rv[-1].value[1] == G('functools.partial'):
+        c = rv[-1].value
+        kws = {k[1]: k[2] for k in c[3] if k[0] == 'kw'}
+        okp = c[2] and c[2][0] == G('cooler.create._ingest._validate_pixels') and \
+            all(kws.get(n) == V(n) for n in ('n_bins', 'boundscheck', 'triucheck', 'dupcheck', 'ensure_sorted'))
+    ctx.check(okp, R, 'partial-binding', ctx.where(fv), found=rv[-1].value if rv else None,
+              expected='partial(_validate_pixels, n_bins=n_bins, boundscheck=boundscheck, triucheck=triucheck, dupcheck=dupcheck, ensure_sorted=ensure_sorted)',
+              reason='each flag must reach the parameter of the same name')
+
+
+# ---------------------------------------------------------------------------
+# C02 #6 / C06 #3 / C08 #3: grouped and sorted producer output
+
+def _groupby_chain(t):
+    """match  X.groupby(keys, sort=?).aggregate(agg).reset_index()  -> (X, keys, sort, agg) or None"""
+    if not (t[0] == 'call' and t[1][0] == 'attr' and t[1][2] == 'reset_index'):
+        return None
+    a = t[1][1]
+    if not (a[0] == 'call' and a[1][0] == 'attr' and a[1][2] in ('aggregate', 'agg')):
+        return None
+    g = a[1][1]
+    if not (g[0] == 'call' and g[1][0] == 'attr' and g[1][2] == 'groupby'):
+        return None
+    keys = T.call_arg(g, 0, 'by')
+    sort = T.get_kw(g, 'sort', T.TRUE)
+    agg = T.call_arg(a, 0, 'func')
+    return g[1][1], keys, sort, agg
+
+
+def producers_sorted(ctx):
+    R = 'PROD.grouped-sorted'
+    idpair = T.lst([C('bin1_id'), C('bin2_id')])
+    # merger
+    fa = ctx.fa('cooler._reduce.CoolerMerger.__iter__')
+    ys = yields(fa)
+    if len(ys) != 1:
+        ctx.unrec(R, 'merger.yield', ctx.where(fa), found=len(ys), reason='expected one yield')
+    else:
+        ch = _groupby_chain(ys[0].value)
+        if ch is None:
+            ctx.bad(R, 'merger.chain', ctx.where(fa, ys[0]), found=ys[0].value,
+                    expected='concat(...).groupby([bin1_id, bin2_id], sort=True).aggregate(agg).reset_index()',
+                    key=f'{R}|merger|chain')
+        else:
+            X, keys, sort, agg = ch
+            ctx.eq(R, 'merger.keys', keys, idpair, ctx.where(fa, ys[0]), 'pixels are combined per (row, column) pair')
+            ctx.eq(R, 'merger.sort', sort, T.TRUE, ctx.where(fa, ys[0]), 'each epoch must come out sorted by (row, column)')
+            ctx.eq(R, 'merger.agg', agg, T.attr(V('self'), 'agg'), ctx.where(fa, ys[0]))
+    # coarsener
+    fb = ctx.fa('cooler._reduce.CoolerCoarsener._aggregate')
+    rs = returns(fb)
+    ic, fi, ev = class_attr(ctx, 'cooler._reduce.CoolerCoarsener', 'index_columns')
+    if not rs:
+        ctx.unrec(R, 'coarsener.return', ctx.where(fb), reason='no return')
+    else:
+        ch = _groupby_chain(rs[-1].value)
+        if ch is None:
+            ctx.bad(R, 'coarsener.chain', ctx.where(fb, rs[-1]), found=rs[-1].value,
+                    expected='chunk.groupby([bin1_id, bin2_id], sort=True).aggregate(agg).reset_index()',
+                    key=f'{R}|coarsener|chain')
+        else:
+            X, keys, sort, agg = ch
+            if keys == T.attr(V('self'), 'index_columns'):
+                keys = ic
+            ctx.eq(R, 'coarsener.keys', keys, idpair, ctx.where(fb, rs[-1]), 'pixels are combined per new (row, column) pair')
+            ctx.eq(R, 'coarsener.sort', sort, T.TRUE, ctx.where(fb, rs[-1]), 'each chunk must come out sorted')
+            ctx.eq(R, 'coarsener.agg', agg, T.attr(V('self'), 'agg'), ctx.where(fb, rs[-1]))
+
+
+# ---------------------------------------------------------------------------
+# C20 #2 (shared by C02 #8, C04 #5, C05, C08 #5): get_binsize looks at every bin
+
+def get_binsize_all_bins(ctx):
+    R = 'BINSIZE.every-bin'
+    fa = ctx.fa('cooler.util.get_binsize')
+    rets = [r for r in returns(fa) if r.value != T.NONE]
+    if not rets:
+        ctx.unrec(R, 'returns', ctx.where(fa), reason='no non-None return')
+        return
+
+    def is_width(x):
+        return x[0] == 'lin' and len(x[2]) == 2 and {li[2] for li in x[2]} == {1, -1} and \
+            {T.show(li[1][2]) for li in x[2] if li[1][0] == 'sub'} == {"'end'", "'start'"}
+
+    def last_bin_terms(t):
+        out = []
+        for x in T.walk(t):
+            if x[0] == 'sub' and x[2] == C(-1) and x[1][0] == 'attr' and x[1][2] == 'iloc' and is_width(x[1][1]):
+                out.append(x)
+            if x[0] == 'call' and x[1][0] == 'attr' and x[1][2] in ('max', 'min', 'all', 'any') \
+                    and any(is_width(y) for y in T.walk(x[1][1])) and not any(
+                        y[0] == 'slice' and y[2] == C(-1) for y in T.walk(x[1][1])):
+                out.append(x)
+        return out
+    for k, r in enumerate(rets):
+        conds = [c for c, p in r.guards] + [x[1] for x in T.walk(r.value) if x[0] == 'ite']
+        hit = [c for c in conds if last_bin_terms(c)]
+        ctx.check(bool(hit), R, f'return#{k}', ctx.where(fa, r), found=[T.show(c)[:200] for c in conds],
+                  expected='a non-None bin size is conditioned on a test of the last bin of each chromosome',
+                  reason='a table whose last bin is longer than the others is not fixed-width: arithmetic fast paths '
+                         '(extent, record binning, coarsening) would spill into the next chromosome',
+                  key=f'{R}|cooler.util.get_binsize|last-bin-ignored')
+        for c in hit:
+            # orientation: last <= common width
+            oks = [x for x in T.walk(c) if x[0] == 'cmp' and x[1] in ('<=', '<') and last_bin_terms(x[2])]
+            ctx.check(bool(oks), R, f'return#{k}.direction', ctx.where(fa, r), found=c,
+                      expected='last bin width <= common width', reason='the last bin may be shorter, never longer')
+        # the value returned is the common width of the non-last bins
+        vals = [x for x in T.walk(r.value) if x[0] == 'call' and x[1] == G('next')]
+        ctx.check(bool(vals), R, f'return#{k}.value', ctx.where(fa, r), found=r.value, expected='the single common width')
+    # all-but-last widths are collected per chromosome and more than one distinct width gives None
+    ups = calls(fa, method='update')
+    okc = any(any(y[0] == 'slice' and y[2] == C(-1) for y in T.walk(arg(e, 0))) and
+              any(is_width(y) for y in T.walk(arg(e, 0))) for e in ups)
+    ctx.check(okc, R, 'common-widths', ctx.where(fa), found=[T.show(arg(e, 0)) for e in ups],
+              expected='sizes.update(<widths>.iloc[:-1].unique()) per chromosome')
+    nones = [r for r in returns(fa) if r.value == T.NONE and any(
+        c[0] == 'cmp' and T.contains(c, C(1)) and p for c, p in r.guards)]
+    ctx.check(bool(nones), R, 'mixed-widths-none', ctx.where(fa), found=len(nones), expected='return None when more than one width')
